@@ -68,7 +68,7 @@ def ft_pairs(tier):
     if tier == "quick":
         # T = 0 is a legal ladder value (prior-free, likelihood-free hottest chain): the carried likelihood must still follow the state
         return [(0.0, 1.0), (0.3, 1.0), (0.3, 0.5), (0.1, 0.25), (0.004, 1.0), (0.3, 0.0)]
-    return [(F, T) for F in (0.0, 0.004, 0.05, 0.3, 0.9) for T in (1.0, 0.5, 0.1)]
+    return [(F, T) for F in (0.0, 0.004, 0.05, 0.3, 0.9) for T in (1.0, 0.5, 0.1)] + [(0.3, 0.0)]
 
 
 def plan(tier, seed):
